@@ -496,3 +496,49 @@ def absorb(chk, res, replay_extra=None, own_props=None):
     if not rec["ok"] and not rec["viol"]:
         return rec, "noend"
     return rec, None
+
+
+def generic_replay(prop, path):
+    """./check <id> --replay <file>: re-run the recorded case (same engine command line, seeds and flavour; the engine is rebuilt from
+    /repo's current tree when the recorded binary is gone). Schedule-dependent cases may need several attempts: up to 5 are made."""
+    import importlib
+    try:
+        d = json.load(open(path))
+    except (OSError, ValueError) as e:
+        print("cannot read replay file: %s" % e)
+        return 2
+    rp = d.get("replay", {})
+    print("replaying %s key=%s\n  recorded detail: %s" % (d.get("property"), d.get("key"), str(d.get("detail"))[:400]))
+    cmd = rp.get("cmd")
+    case = rp.get("case")
+    if case and "mseed" in case:
+        if "ranks" in case:
+            mc = importlib.import_module("mpi_common")
+            case = dict(case, exe=mc.mpi_exe(case.get("flavour", "asan")))
+            for attempt in range(5):
+                res, texts = mc.run_one(case, 120)
+                out = "\n".join(texts)
+                if "VKEY %s " % prop in out:
+                    print(out[-3000:])
+                    print("VIOLATION property=%s replay=%s" % (prop, path))
+                    return 1
+            print("not reproduced in 5 attempts (schedule dependent); the recorded output is in the replay file")
+            return 0
+        sc = importlib.import_module("sim_common")
+        case = dict(case, exe=sc.sim_exe(case.get("flavour", "asan")))
+        cmd = sc.cmd_of(case)
+    if not cmd:
+        print("replay file holds no command")
+        return 2
+    if not os.path.exists(cmd[0]):
+        print("recorded engine binary %s no longer exists; run the check itself to rebuild it (build cache is content-addressed)" % cmd[0])
+        return 2
+    for attempt in range(5):
+        res = run_case(cmd, timeout=600, env=(case or {}).get("env") if isinstance(case, dict) else None)
+        sk = sanitizer_key(res.err)
+        if "VKEY %s " % prop in res.out or (sk and not sk.startswith("HARNESS")):
+            print((res.out[-2500:] + "\n" + res.err[-1500:]))
+            print("VIOLATION property=%s replay=%s" % (prop, path))
+            return 1
+    print("not reproduced in 5 attempts; the recorded output is in the replay file")
+    return 0
